@@ -9,6 +9,7 @@ import (
 	"hash/fnv"
 	"runtime"
 	"strings"
+	"time"
 )
 
 // Scenario is one closed driver. Run is executed once per execution of the choice tree.
@@ -63,6 +64,12 @@ type X struct {
 	obs      uint64
 	nontriv  bool
 	tags     []string
+	counts   map[string]int64
+	reports  []Violation
+	xStates  int64
+	incompl  string
+	deadline time.Time
+	xTrans   int64
 	fail     *Violation
 	ticks    int
 	s        *sched
@@ -150,6 +157,54 @@ func (x *X) NonTrivial() { x.nontriv = true }
 
 // Tag counts this execution under a named census bucket (vacuity reporting).
 func (x *X) Tag(t string) { x.tags = append(x.tags, t) }
+
+// Count adds n to a named census counter.
+func (x *X) Count(name string, n int64) {
+	if x.counts == nil {
+		x.counts = map[string]int64{}
+	}
+	x.counts[name] += n
+}
+
+// AddStates / AddTransitions let a driver that runs an explicit-state search inside one
+// execution account for the states and transitions it visited.
+func (x *X) AddStates(n int64)      { x.xStates += n }
+func (x *X) AddTransitions(n int64) { x.xTrans += n }
+
+// HasReport reports whether key was already reported in this execution.
+func (x *X) HasReport(key string) bool {
+	for _, r := range x.reports {
+		if r.Key == key {
+			return true
+		}
+	}
+	return false
+}
+
+// ReportCount is the number of distinct keys reported so far in this execution.
+func (x *X) ReportCount() int { return len(x.reports) }
+
+// DeadlineExceeded reports whether the run's soft deadline has passed (long-running
+// single executions poll it and stop with Incomplete).
+func (x *X) DeadlineExceeded() bool {
+	return !x.deadline.IsZero() && time.Now().After(x.deadline)
+}
+
+// Incomplete marks the exploration as not exhaustive (a cap inside the driver was hit).
+func (x *X) Incomplete(reason string) { x.incompl = reason }
+
+// Report records a violation and lets the execution continue (a driver that explores many
+// states in one execution can report several distinct keys).
+func (x *X) Report(key, format string, args ...any) {
+	for _, r := range x.reports {
+		if r.Key == key {
+			return
+		}
+	}
+	if len(x.reports) < 200 {
+		x.reports = append(x.reports, Violation{Scenario: x.sc.Name, Key: key, Msg: fmt.Sprintf(format, args...)})
+	}
+}
 
 // Fail records an oracle violation with a canonical key naming the failing case and aborts
 // the execution.
